@@ -137,6 +137,34 @@ theorem applyRelocs_cases (cfg : LoaderCfg) (hh : Hardened cfg) : ∀ (k : Nat) 
 
 /-! ### acceptance: an image assembled from any bodies and any list of good relocation entries loads -/
 
+/-- the loader's own allocation of a buffer of `len` bytes succeeds (capacity 10485·2^k ≥ len stays within 4 GB) -/
+def CapOk (len : Nat) : Prop := ¬ newCap loadInitialSize 0 0 len > 2 ^ maxBufferSizeLog2
+
+theorem capOk_of_le {len : Nat} (h : len ≤ 2 ^ 31) : CapOk len := newCap_load_ok h
+
+theorem capOk_lt {len : Nat} (h : CapOk len) : len ≤ 2 ^ 32 := by
+  unfold CapOk at h
+  have := newCap_ge (init := loadInitialSize) (cap := 0) (used := 0) (size := len) (by decide)
+  simp only [maxBufferSizeLog2] at h
+  omega
+
+theorem readBodies_full' (alloc : Nat → Nat) (ds : List Bytes) (hs : ∀ d ∈ ds, CapOk d.length) (tail : Bytes) (i : Nat) :
+    readBodies alloc i (ds.map (·.length)) (ds.flatten ++ tail) = .ok (loadedBufs alloc i ds, tail) := by
+  induction ds generalizing i with
+  | nil => simp [readBodies, loadedBufs]
+  | cons d t ih =>
+    have hst : ∀ d ∈ t, CapOk d.length := fun x hx => hs x (List.mem_cons_of_mem _ hx)
+    simp only [List.map_cons, readBodies, loadedBufs]
+    by_cases hz : d.length = 0
+    · have hd : d = [] := List.eq_nil_of_length_eq_zero hz
+      subst hd
+      simp only [List.length_nil, if_true, List.flatten_cons, List.nil_append]
+      rw [ih hst]; rfl
+    · rw [if_neg hz, if_neg (hs d (List.mem_cons_self ..)), if_neg hz]
+      simp only [List.flatten_cons, List.append_assoc]
+      have hlen : ¬ (d ++ (t.flatten ++ tail)).length < d.length := by rw [List.length_append]; omega
+      rw [if_neg hlen, drop_append_len rfl, take_append_len rfl, ih hst]; rfl
+
 /-- a reference as found in a slot of the bodies `ds`: null, or to a byte inside one of them -/
 def GoodD (ds : List Bytes) (x : Option Ref) : Prop :=
   x = none ∨ ∃ t, x = some t ∧ t.buf < ds.length ∧ t.off < (ds.getD t.buf []).length
@@ -145,7 +173,7 @@ theorem relocBytes_append (l1 l2 : List Ref) : relocBytes (l1 ++ l2) = relocByte
   simp [relocBytes]
 
 theorem load_image_ok (cfg : LoaderCfg) (alloc : Nat → Nat) (hnz : ∀ i, alloc i ≠ 0) (ds : List Bytes) (hn : ds.length ≤ maxBuffers)
-    (hs : ∀ d ∈ ds, d.length ≤ 2 ^ 31) (rs : List Ref) (hpw : rs.Pairwise NoOverlap)
+    (hs : ∀ d ∈ ds, d.length < 2 ^ 32 ∧ CapOk d.length) (rs : List Ref) (hpw : rs.Pairwise NoOverlap)
     (hin : ∀ r ∈ rs, r.buf < ds.length ∧ r.off + 8 ≤ (ds.getD r.buf []).length)
     (hgood : ∀ r ∈ rs, ∃ x, rd64 (ds.getD r.buf []) r.off = encRef x ∧ GoodD ds x) :
     ∃ A, load cfg alloc (header ds.length ++ (table (headerSize + tableEntrySize * ds.length) (ds.map (·.length)) ++
@@ -154,12 +182,12 @@ theorem load_image_ok (cfg : LoaderCfg) (alloc : Nat → Nat) (hnz : ∀ i, allo
   have hA0len : A0.bufs.length = ds.length := loadedBufs_length alloc 0 ds
   have hA0data : ∀ j, (A0.bufAt j).data = ds.getD j [] := fun j => loadedBufs_getD_data alloc 0 ds j
   have hn16 : ds.length ≤ 16 := hn
-  have hlen31 : ∀ j, (ds.getD j []).length ≤ 2 ^ 31 := by
+  have hlen31 : ∀ j, (ds.getD j []).length < 2 ^ 32 := by
     intro j
     by_cases hj : j < ds.length
     · have : ds.getD j [] ∈ ds := by
         rw [List.getD_eq_getElem?_getD, List.getElem?_eq_getElem hj]; exact List.getElem_mem hj
-      exact hs _ this
+      exact (hs _ this).1
     · have : ds.getD j [] = [] := by
         rw [List.getD_eq_getElem?_getD, List.getElem?_eq_none (by omega)]; rfl
       rw [this]; simp
@@ -187,10 +215,10 @@ theorem load_image_ok (cfg : LoaderCfg) (alloc : Nat → Nat) (hnz : ∀ i, allo
     rw [entries_sizes, List.map_map]
     apply List.map_congr_left
     intro d hd
-    have := hs d hd
     show d.length % 2 ^ 32 = d.length
-    exact Nat.mod_eq_of_lt (by omega)
-  rw [table_eq_raw, load_raw' cfg alloc _ _ hes hn, entriesOk_entries, hsizes, readBodies_full alloc ds hs (relocBytes rs) 0]
+    exact Nat.mod_eq_of_lt (hs d hd).1
+  rw [table_eq_raw, load_raw' cfg alloc _ _ hes hn, entriesOk_entries, hsizes,
+    readBodies_full' alloc ds (fun d hd => (hs d hd).2) (relocBytes rs) 0]
   simp only [Bool.not_true, Bool.and_false, Bool.false_eq_true, if_false]
   have := applyRelocs_ok cfg rs A0 [] hslots
     (fun r hr => by
@@ -280,7 +308,7 @@ theorem GoodD.extends {ds ds' : List Bytes} (h : Extends ds ds') {x : Option Ref
     entries, the others are applied -/
 theorem load_patch_size_raised_ok (cfg : LoaderCfg) (alloc : Nat → Nat) (hnz : ∀ i, alloc i ≠ 0) (dpre : List Bytes) (dlast : Bytes)
     (hn : dpre.length + 1 ≤ maxBuffers) (hs : ∀ d ∈ dpre, d.length ≤ 2 ^ 31) (R : List Ref) (j : Nat) (hj : j ≤ R.length)
-    (hz : dlast.length + 8 * j ≤ 2 ^ 31) (hpw : R.Pairwise NoOverlap)
+    (hz : dlast.length + 8 * j < 2 ^ 32 ∧ CapOk (dlast.length + 8 * j)) (hpw : R.Pairwise NoOverlap)
     (hin : ∀ r ∈ R, r.buf < (dpre ++ [dlast]).length ∧ r.off + 8 ≤ ((dpre ++ [dlast]).getD r.buf []).length)
     (hgood : ∀ r ∈ R, ∃ x, rd64 ((dpre ++ [dlast]).getD r.buf []) r.off = encRef x ∧ GoodD (dpre ++ [dlast]) x) :
     ∃ A, load cfg alloc (patch (header (dpre.length + 1) ++
@@ -314,7 +342,8 @@ theorem load_patch_size_raised_ok (cfg : LoaderCfg) (alloc : Nat → Nat) (hnz :
   apply load_image_ok cfg alloc hnz _ (by simp; exact hn)
   · intro d hd
     rcases List.mem_append.1 hd with h | h
-    · exact hs d h
+    · have := hs d h
+      exact ⟨by omega, capOk_of_le this⟩
     · rw [List.mem_singleton] at h
       rw [h, List.length_append, hlenx]; exact hz
   · exact List.Pairwise.sublist (List.drop_sublist j R) hpw
@@ -333,7 +362,7 @@ theorem load_patch_size_raised_ok (cfg : LoaderCfg) (alloc : Nat → Nat) (hnz :
 theorem load_patch_size_raised_bad (cfg : LoaderCfg) (hh : Hardened cfg) (alloc : Nat → Nat) (dpre : List Bytes) (dlast : Bytes)
     (hn : dpre.length + 1 ≤ maxBuffers) (hs : ∀ d ∈ dpre, d.length ≤ 2 ^ 31) (R : List Ref) (z : Nat) (hz : z < 2 ^ 32)
     (hgt : dlast.length < z) (hbad : ¬ ((z - dlast.length) % 8 = 0 ∧ z - dlast.length ≤ 8 * R.length ∧
-      ¬ newCap loadInitialSize 0 0 z > 2 ^ maxBufferSizeLog2)) :
+      CapOk z)) :
     load cfg alloc (patch (header (dpre.length + 1) ++
         (table (headerSize + tableEntrySize * (dpre.length + 1)) (dpre.map (·.length) ++ [dlast.length]) ++
           (dpre.flatten ++ (dlast ++ relocBytes R)))) (sizeFieldAt dpre.length) (leBytes 4 z)) =
